@@ -105,6 +105,21 @@ PROPS = {
         "nontrivial": {"inexact", "perfect-square", "special", "nan"},
         "rule": ARITH_RULE + "specification = Nat.sqrt of the scaled operand + sticky, rounded once; non-trivial = inexact root, perfect square, special operand or negative operand",
     },
+    "C11": {
+        "gens": [{"name": "C11", "quick": 1500, "thorough": 8000}],
+        "nontrivial": {"shortest", "base10", "low-zero-word", "special"},
+        "rule": ARITH_RULE + "Text(x, fmt, -1) for fmt in e E f g G p b and MarshalText, checked (a) to denote exactly x and to contain exactly MinPrec digits, then (b) parsed back into a receiver of precision >= MinPrec with base 10 or 0 and compared with x by Cmp and sign; values: dyadic, low zero words, specials, extreme exponents for exponent formats",
+    },
+    "C12": {
+        "gens": [{"name": "C12", "quick": 3000, "thorough": 15000}, {"name": "C11", "quick": 500, "thorough": 3000}],
+        "nontrivial": {"rejected", "inexact", "underscore", "nondecimal-or-inf", "base10"},
+        "rule": ARITH_RULE + "literals: well-formed base-10 (to thousands of digits, point anywhere, '_' in base 0, exponents at the int32 limits and beyond int64), base 2/8/16 with and without prefix and 'p' exponent, Inf spellings, mutated valid literals and random strings over the alphabet 0-9a-fA-FxXoOpP_.+-eEinfIN; compared three ways: Go Parse / Lean model of scan / math/big Float.Parse for acceptance and base; base-10 values against the exact literal value rounded once",
+    },
+    "C13": {
+        "gens": [{"name": "C13", "quick": 2500, "thorough": 12000}],
+        "nontrivial": {"inexact", "above-leading-digit", "flags", "width", "special"},
+        "rule": ARITH_RULE + "Text/Append with explicit precision 0..24 and fmt.Sprintf with verbs e E f F g G v, flags + space 0 -, width and precision, six modes; oracles: the printed value must be x rounded once at the requested position (Lean Spec), and for values that are exactly float64 in ToNearestEven the string must equal strconv.FormatFloat / fmt.Sprintf of that float64",
+    },
     "C14": {
         "gens": [{"name": "C14", "quick": 2500, "thorough": 12000}],
         "nontrivial": {"inexact", "edge", "setint", "setrat", "newdec", "range"},
